@@ -157,8 +157,14 @@ func (f *inFlow) maybeAdjust(n uint32) uint32 {
 	// request from the application.
 	if estUntransmittedData > estSenderQuota {
 		// Sender's window shouldn't go more than 2^31 - 1 as specified in the HTTP spec.
-		if f.limit+n > maxWindowSize {
-			f.delta = maxWindowSize - f.limit
+		// A later SETTINGS_INITIAL_WINDOW_SIZE raise by the BDP estimator (up to
+		// bdpLimit) adds to the same window, so leave room for it.
+		ceiling := uint32(maxWindowSize - bdpLimit)
+		if f.limit > ceiling {
+			ceiling = f.limit
+		}
+		if f.limit+n > ceiling {
+			f.delta = ceiling - f.limit
 		} else {
 			// Send a window update for the whole message and not just the difference between
 			// estUntransmittedData and estSenderQuota. This will be helpful in case the message
